@@ -218,7 +218,7 @@ func checkCommitAppliesEveryOp(p *Prog, r *Roles, res *Result, rule string) {
 		res.und(rule, "memkv batch: Commit", "-", "not found")
 		return
 	}
-	n := 0
+	n, pure := 0, 0
 	// the loop may live in a helper that Commit calls
 	var scope []*ssa.Function
 	seenFn := map[*ssa.Function]bool{}
@@ -250,11 +250,28 @@ func checkCommitAppliesEveryOp(p *Prog, r *Roles, res *Result, rule string) {
 				if _, isMap := rg.X.Type().Underlying().(*types.Map); !isMap {
 					continue
 				}
-				n++
-				construct := fmt.Sprintf("%s: every staged operation is applied to the skip list (loop #%d)", funcName(commit), n)
 				pa := posOf(nx)
 				// (helpers of the package that the loop body calls are followed)
 				region := &fnRegion{root: host, descend: func(g *ssa.Function) bool { return g.Pkg == commit.Pkg && g.Synthetic == "" }}
+				inLoop := loopOf(pa.b)
+				// a loop that never touches the store (a validation pass before anything is applied) is not the apply loop
+				mutates, _, _ := region.search(&frame{fn: host}, pa.b, pa.i+1, superOpts{
+					stop: func(i ssa.Instruction, _ *frame) bool { return i == ssa.Instruction(nx) },
+					skipEdge: func(from *ssa.BasicBlock, succ int, fr *frame) bool {
+						// leaving the loop
+						return fr.fn == host && inLoop[from] && !inLoop[from.Succs[succ]]
+					},
+					bad: func(i ssa.Instruction, _ *frame) bool {
+						c, ok := i.(ssa.CallInstruction)
+						return ok && isEngineCall(c, "Remove", "Set", "RemoveElement")
+					},
+				})
+				if mutates == nil {
+					pure++
+					continue
+				}
+				n++
+				construct := fmt.Sprintf("%s: every staged operation is applied to the skip list (loop #%d)", funcName(commit), n)
 				skipped, _, _ := region.search(&frame{fn: host}, pa.b, pa.i+1, superOpts{
 					stop: func(i ssa.Instruction, _ *frame) bool {
 						c, ok := i.(ssa.CallInstruction)
@@ -270,7 +287,9 @@ func checkCommitAppliesEveryOp(p *Prog, r *Roles, res *Result, rule string) {
 			}
 		}
 	}
-	if n == 0 {
+	if n == 0 && pure > 0 {
+		res.bad(rule, funcName(commit)+": apply loop", p.pos(commit.Pos()), "Commit loops over the staged operations but no loop applies them to the skip list")
+	} else if n == 0 {
 		res.und(rule, funcName(commit)+": apply loop", p.pos(commit.Pos()), "no loop over the staged operations found")
 	}
 }
